@@ -27,16 +27,53 @@ type listAcc struct {
 	n                int64
 }
 
-func listFields(l *listz.SyncList[int64]) (lenP *int64, headP, tailP *unsafe.Pointer) {
-	v := reflect.ValueOf(l).Elem()
-	f := func(name string) unsafe.Pointer {
-		sf, ok := v.Type().FieldByName(name)
-		if !ok {
-			panic("SyncList field " + name + " not found")
-		}
-		return unsafe.Pointer(v.UnsafeAddr() + sf.Offset)
+// the counter and the two pointers of SyncList are found by type and behaviour (names are hints only): after one Push on
+// a fresh list the int64 field that reads 1 is the length, the pointer field that changed is the tail, the other the head
+var c11Off struct {
+	once               sync.Once
+	err                string
+	len, head, tail    uintptr
+}
+
+func c11FindFields() {
+	l := listz.NewSync[int64]()
+	t := reflect.TypeOf(l).Elem()
+	p := unsafe.Pointer(l)
+	ptrs := FieldsWhere(t, KindIs(reflect.UnsafePointer, reflect.Ptr))
+	old := map[string]unsafe.Pointer{}
+	for _, f := range ptrs {
+		old[f.Name] = *(*unsafe.Pointer)(unsafe.Add(p, f.Offset))
 	}
-	return (*int64)(f("len")), (*unsafe.Pointer)(f("head")), (*unsafe.Pointer)(f("tail"))
+	before := IntFieldValues(t, p)
+	l.Push(77)
+	now := IntFieldValues(t, p)
+	lf, ok := FieldWithValue(t, now, before, 1, "len", "size", "count")
+	if !ok {
+		c11Off.err = "SyncList: length counter not found"
+		return
+	}
+	var moved, still []reflect.StructField
+	for _, f := range ptrs {
+		if *(*unsafe.Pointer)(unsafe.Add(p, f.Offset)) != old[f.Name] {
+			moved = append(moved, f)
+		} else {
+			still = append(still, f)
+		}
+	}
+	if len(moved) != 1 || len(still) != 1 {
+		c11Off.err = "SyncList: head/tail pointers not found"
+		return
+	}
+	c11Off.len, c11Off.tail, c11Off.head = lf.Offset, moved[0].Offset, still[0].Offset
+}
+
+func listFields(l *listz.SyncList[int64]) (lenP *int64, headP, tailP *unsafe.Pointer) {
+	c11Off.once.Do(c11FindFields)
+	if c11Off.err != "" {
+		panic(c11Off.err)
+	}
+	p := unsafe.Pointer(l)
+	return (*int64)(unsafe.Add(p, c11Off.len)), (*unsafe.Pointer)(unsafe.Add(p, c11Off.head)), (*unsafe.Pointer)(unsafe.Add(p, c11Off.tail))
 }
 
 func c11Probe() {
